@@ -265,6 +265,10 @@ class Float:
         return self + other
 
     def __sub__(self, other):
+        if isinstance(other, (int, Fraction)) and other == 0:
+            # a native zero stands for +0 and has no sign to flip:
+            # `x - 0` is `x + (-0)`, so `(-0) - 0` is `-0` as for a float zero
+            return self + Float(s=True, c=0, exp=0)
         return self + (-other)
     
     def __rsub__(self, other):
